@@ -129,7 +129,10 @@ def burst_and_callers_rows(c):
     if den < nb * 0.5:          # under heavy machine load some clients time out; the row below counts only the answered ones
         raise util.ToolError("burst scenario: only %d of %d simultaneous requests were answered 403" % (den, nb))
     after = sum(x.get("count", 0) for x in (snaps["burst"].get("failedAuth") or []))
-    rows.append({"e": "pub", "id": "burst", "denials": den, "inFile": after - before})
+    # clients that gave up waiting (machine load) may or may not have been denied by the agent: each may add one occurrence
+    unanswered = sum(1 for b in range(nb) if "b%d" % b not in resp)
+    rows.append({"e": "pub", "id": "burst", "denials": den, "inFile": after - before, "unanswered": unanswered})
+    c.extra["burst_unanswered"] = unanswered
     c.extra["simultaneous_denials"] = den
     c.extra["long_command_line_prefix"] = len(os.path.commonprefix([sh + " " + script + " --instance-name worker-a",
                                                                      sh + " " + script + " --instance-name worker-b"]))
@@ -161,13 +164,14 @@ def run(c):
     ok, why, res = validate_trace(c, "ProxyTrace", proxylib.write_cfg("C11", ["P_C11_PublishedInStatusFile"], "pubb"), brows, "c11_pubb",
                                   count=1, timeout=300)
     if not ok:
-        bad = [r for r in brows if r["inFile"] != r["denials"]]
+        off = lambda r: not (r["denials"] <= r["inFile"] <= r["denials"] + r.get("unanswered", 0))
+        bad = [r for r in brows if off(r)]
         for attempt in range(3):                    # only a verdict that reproduces is reported (the overflow is a race)
             brows2 = burst_and_callers_rows(c)
             sb2 = c13.robust_table([{"kind": "status_burst", "n": sb["n"]}], "c11_sburst")[0]
             brows2.append({"e": "pub", "id": "recording-burst", "denials": sb2.get("n", 0), "inFile": sb2.get("failedRecorded", -1)})
             brows2 += [r for r in brows if r["id"].startswith("many-callers")]
-            bad2 = [r for r in brows2 if r["inFile"] != r["denials"]]
+            bad2 = [r for r in brows2 if off(r)]
             if bad2 and not {r["id"] for r in bad2}.isdisjoint({r["id"] for r in bad}):
                 break
         else:
